@@ -37,8 +37,8 @@ def generate(model_classes, out_path, mod=None):
     kwargs = {}
     model_classes = list(model_classes)
     if mod is not None:
-        model_classes += [mod.Vec, mod.Label, mod.Title]
-        kwargs = dict(alternative_mappings=[mod.VecMapping, mod.LabelMapping], type_mappings={mod.Money: mod.MoneyType})
+        model_classes += [mod.Vec, mod.Label, mod.Title, mod.Track]
+        kwargs = dict(alternative_mappings=[mod.VecMapping, mod.LabelMapping, mod.TrackMapping], type_mappings={mod.Money: mod.MoneyType})
     orm = ORMatic(ClassDiagram(model_classes), **kwargs)
     orm.make_all_tables()
     with open(out_path, "w") as fh:
@@ -64,8 +64,8 @@ from krrood.ormatic.ormatic import ORMatic
 classes = [getattr(mod, n) for n in {names!r}]
 kwargs = dict()
 if {extras!r}:
-    classes += [mod.Vec, mod.Label, mod.Title]
-    kwargs = dict(alternative_mappings=[mod.VecMapping, mod.LabelMapping], type_mappings={{mod.Money: mod.MoneyType}})
+    classes += [mod.Vec, mod.Label, mod.Title, mod.Track]
+    kwargs = dict(alternative_mappings=[mod.VecMapping, mod.LabelMapping, mod.TrackMapping], type_mappings={{mod.Money: mod.MoneyType}})
 orm = ORMatic(ClassDiagram(classes), **kwargs); orm.make_all_tables()
 out = {out!r}
 with open(out, "w") as fh:
@@ -217,7 +217,7 @@ class C06(Check):
                             return bad("underscore_field_mapped", f"{names[i]}.{name} appears in the DAO")
                         continue
                     e = MI.endpoint(t)
-                    if e["k"] not in ("ref", "alt", "lab"):
+                    if e["k"] not in ("ref", "alt", "lab", "trk"):
                         if name not in cols:
                             return bad("missing_column", f"{names[i]}.{name}: {MI.annotation(t, names)} has no column (columns: {sorted(cols)})")
                         col_type = getattr(daos[i], name).property.columns[0].type
@@ -228,7 +228,7 @@ class C06(Check):
                     r = relationships.get(name)
                     if r is None:
                         return bad("missing_relationship", f"{names[i]}.{name}: {MI.annotation(t, names)} has no relationship (relationships: {sorted(relationships)})")
-                    want_target = daos[e["c"]] if e["k"] == "ref" else getattr(gen, "VecMappingDAO" if e["k"] == "alt" else "LabelMappingDAO", None)
+                    want_target = daos[e["c"]] if e["k"] == "ref" else getattr(gen, {"alt": "VecMappingDAO", "lab": "LabelMappingDAO", "trk": "TrackMappingDAO"}[e["k"]], None)
                     if r.mapper.class_ is not want_target:
                         return bad("relationship_wrong_target", f"{names[i]}.{name} -> {r.mapper.class_.__name__}, expected {getattr(want_target, '__name__', None)}")
                     want_list = t["k"] in ("list", "set")
